@@ -6,15 +6,15 @@ Local Open Scope N_scope.
 
 (* ---- for every file and every fault ------------------------------------------------------------------ *)
 
-Lemma write_cmd_cases fault file idarg kvs :
-  let '(e, f') := write_cmd fault file idarg kvs in
+Lemma write_cmd_with_cases chk fault file idarg kvs :
+  let '(e, f') := write_cmd_with chk fault file idarg kvs in
   (e = 1 /\ f' = file) \/
   (fault = true /\ e = 1 /\ f' = Some []) \/
   (fault = false /\ e = 0 /\ exists content rows rs b,
       file = Some content /\ parse_file content = Some rows /\
       serialize_rows (sort_rows rs) = Some b /\ f' = Some (header ++ b)).
 Proof.
-  unfold write_cmd. destruct file as [content|]; [|now left].
+  unfold write_cmd_with. destruct file as [content|]; [|now left].
   destruct (parse_file content) as [rows|] eqn:Ep; [|now left].
   destruct (strtonum id_min id_max (cstr idarg)); try (now left).
   destruct (z =? 0)%Z; [now left|].
@@ -25,6 +25,15 @@ Proof.
   - right. left. auto.
   - right. right. repeat split; auto. exists content, rows, rs, b. auto.
 Qed.
+
+Lemma write_cmd_cases fault file idarg kvs :
+  let '(e, f') := write_cmd fault file idarg kvs in
+  (e = 1 /\ f' = file) \/
+  (fault = true /\ e = 1 /\ f' = Some []) \/
+  (fault = false /\ e = 0 /\ exists content rows rs b,
+      file = Some content /\ parse_file content = Some rows /\
+      serialize_rows (sort_rows rs) = Some b /\ f' = Some (header ++ b)).
+Proof. exact (write_cmd_with_cases step_key_checked fault file idarg kvs). Qed.
 
 Lemma reject_unchanged file idarg kvs :
   fst (write_cmd false file idarg kvs) <> 0 -> snd (write_cmd false file idarg kvs) = file.
